@@ -132,6 +132,26 @@ func (uaq *UnAckQueue) Push(s Queueable) error {
 	return nil
 }
 
+// Restart takes every element out of the queue and returns those the peer has not handled yet,
+// h being the number of stanzas of the session it has handled (see XEP-0198, resumption).
+// The numbering goes on from h: pushing the returned elements again, in their order, gives them
+// the ranks they have for the peer once they are sent again.
+// No guarantee regarding thread safety !
+func (uaq *UnAckQueue) Restart(h int) []*UnAckedStz {
+	if uaq == nil {
+		return nil
+	}
+	var pending []*UnAckedStz
+	for _, elt := range uaq.Uslice {
+		if elt.Id > h {
+			pending = append(pending, elt)
+		}
+	}
+	uaq.Uslice = uaq.Uslice[:0]
+	uaq.lastId = h
+	return pending
+}
+
 func (uaq *UnAckQueue) Empty() bool {
 	if uaq == nil {
 		return true
